@@ -180,7 +180,9 @@ pub(crate) mod b {
                             )
                         })
                         .collect();
-                    let node: Node<()> = CellBuffer::fragments_to_node(frags, String::new(), &st, w, h);
+                    // the legend only feeds the style sheet: with the style switch off it must leave no trace
+                    let legend = if (sw as usize + nfrag) % 2 == 0 { String::new() } else { ".svgbob .a{ fill:red }".to_string() };
+                    let node: Node<()> = CellBuffer::fragments_to_node(frags, legend.clone(), &st, w, h);
                     let ok_root = node.tag() == Some(&"svg")
                         && text_of(&node, "xmlns").as_deref() == Some("http://www.w3.org/2000/svg")
                         && text_of(&node, "class").as_deref() == Some("svgbob")
@@ -202,6 +204,10 @@ pub(crate) mod b {
                     }
                     let got: Vec<&str> = ch.iter().map(|c| *c.tag().unwrap_or(&"?")).collect();
                     let mut ok = ok_root && got == want;
+                    if st.include_styles {
+                        let css = ch[0].children().first().and_then(|t| t.as_text()).unwrap_or("");
+                        ok = ok && (legend.is_empty() || css.ends_with(&legend));
+                    }
                     if st.include_backdrop {
                         let b = &ch[want.iter().position(|t| *t == "rect").unwrap()];
                         ok = ok
@@ -582,6 +588,54 @@ pub(crate) mod b {
                     if !same_cells || cb.escaped_text != base.escaped_text {
                         println!("BOUNDED-WITNESS trailing blanks {:?} change row {:?}: quoted {:?} vs {:?}", trail, r, cb.escaped_text, base.escaped_text);
                         panic!("trailing blanks do not change the output");
+                    }
+                    n += 1;
+                }
+            }
+        }
+        println!("BOUNDED-CASES {}", n);
+    }
+
+    /// C18: an overridden size changes only the root and backdrop dimensions - natively, for sizes smaller and
+    /// larger than the drawing (complements the Verus obligation C18.get_node_override_size)
+    #[test]
+    fn bounded_override_size() {
+        let diagrams = ["", "hello", "+--+\n|ab|\n+--+\n", "--+\n  |\n", "  .-.\n (   )  x\n  `-'\n\n            +---+ far\n", "a\n# Legend:\nb = {fill:red}"];
+        let sizes = [(1.0f32, 1.0f32), (8.0, 16.0), (40.0, 7.5), (1000.0, 2000.0)];
+        let render = |n: &Node<()>| {
+            let mut out = String::new();
+            n.render(&mut out).unwrap();
+            out
+        };
+        let mut n = 0u64;
+        for d in diagrams {
+            let cb = CellBuffer::from(d);
+            for sw in 0..8u32 {
+                let st = Settings { include_backdrop: sw & 1 != 0, include_styles: sw & 2 != 0, include_defs: sw & 4 != 0, ..Settings::default() };
+                let (base, bw, bh): (Node<()>, f32, f32) = cb.get_node_with_size(&st);
+                for (w, h) in sizes {
+                    let over: Node<()> = cb.get_node_override_size(&st, w, h);
+                    let strip = |node: &Node<()>, w: f32, h: f32| -> Option<Vec<String>> {
+                        let mut v = vec![];
+                        for c in node.children() {
+                            if c.tag() == Some(&"rect") && c.first_value(&"class").map(|x| x.to_string()).as_deref() == Some("backdrop") {
+                                if c.first_value(&"width").and_then(|x| x.as_f32()) != Some(w) || c.first_value(&"height").and_then(|x| x.as_f32()) != Some(h) {
+                                    return None;
+                                }
+                                v.push("<backdrop>".to_string());
+                            } else {
+                                v.push(render(c));
+                            }
+                        }
+                        Some(v)
+                    };
+                    let ok = over.first_value(&"width").and_then(|x| x.as_f32()) == Some(w)
+                        && over.first_value(&"height").and_then(|x| x.as_f32()) == Some(h)
+                        && strip(&over, w, h).is_some()
+                        && strip(&over, w, h) == strip(&base, bw, bh);
+                    if !ok {
+                        println!("BOUNDED-WITNESS override size ({},{}) on diagram {:?} (switches {}): children differ from the computed-size rendering", w, h, d, sw);
+                        panic!("an overridden size changes only the root and backdrop dimensions");
                     }
                     n += 1;
                 }
